@@ -4,7 +4,8 @@
 
    Lines (NDJSON, written by harness/inpkg/{store,state}/zz_verif_c18_test.go):
      Reset   cfg                       new run: empty databases, chain description
-     Op      op a b c res mem0 journal one API call was executed on the real store(s); journal =
+     Op      op a b c res mem0 journal one API call was executed on the real store(s) (op = "Load":
+                                       the whole content of the real databases is installed); journal =
                                        the single DB writes it issued, in order, each with the
                                        BlockStore's in-memory base/height (mb, mh) at that moment
      A       k dbase dheight mbase mheight ranges [win]
@@ -84,6 +85,16 @@ Predicted(e, d, m) ==
     [] e.op = "SaveBlock"   -> SaveBlockSteps(cfg, m, e.a)
     [] e.op = "PruneBlocks" -> PruneBlocksSteps(cfg, d, m, e.a)
     [] e.op = "PruneStates" -> PruneStatesSteps(cfg, d, e.a, e.b)
+    \* consensus/state.go pruneBlocks(retain): nothing if retain <= base, else the block store,
+    \* then the state store from the OLD base (PruneBlocks does not touch the state store's keys)
+    [] e.op = "ConsPrune"   -> IF e.a <= m.base THEN [steps |-> << >>, res |-> "ok"]
+                               ELSE LET pb == PruneBlocksSteps(cfg, d, m, e.a) IN
+                                    IF pb.res # "ok" THEN pb
+                                    ELSE LET ps == PruneStatesSteps(cfg, d, m.base, e.a) IN
+                                         [steps |-> pb.steps \o ps.steps, res |-> ps.res]
+    \* the driver installs the abstraction of the whole real databases (long chains are built
+    \* without trace lines; the build operations are covered by the small chains)
+    [] e.op = "Load"        -> [steps |-> JWrites(e.journal), res |-> "ok"]
     [] OTHER                -> [steps |-> << >>, res |-> "unknown-op"]
 
 RECURSIVE MemAtWrites(_, _, _)
@@ -136,6 +147,12 @@ StepA(e) ==
       hs   == IF cfg.full THEN Dom(cfg) ELSE {h \in ToSet(e.win) : InDom(cfg, h)}
       done == e.k = Len(js) /\ op.res = "ok"
       ob   == mem0.base
+      \* a completed prune of the block store to `bto` / of the state store [sfrom, sto)
+      isPB == op.op = "PruneBlocks" \/ (op.op = "ConsPrune" /\ op.a > ob)
+      bto  == op.a
+      isPS == op.op = "PruneStates" \/ (op.op = "ConsPrune" /\ op.a > ob)
+      sfrom == IF op.op = "PruneStates" THEN op.a ELSE ob
+      sto   == IF op.op = "PruneStates" THEN op.b ELSE op.a
   IN /\ cur' = d /\ curk' = e.k
      /\ UNCHANGED <<cfg, disk0, mem0, opl, stack>>
      /\ drift' = drift
@@ -148,15 +165,15 @@ StepA(e) ==
               \cup { <<"AuditLive", c>> : c \in AuditObs(e, rm) }
               \cup (IF "block" \in cfg.chk /\ \E i \in 1 .. Len(e.ranges) : ~MetaImpliesBlockAt(e.ranges[i].p)
                     THEN {<<"MetaImpliesBlock", "meta-without-block">>} ELSE {})
-              \cup (IF done /\ op.op = "PruneBlocks"
-                       /\ ~(/\ rd.base = op.a /\ rm.base = op.a
+              \cup (IF done /\ isPB
+                       /\ ~(/\ rd.base = bto /\ rm.base = bto
                             /\ \A i \in 1 .. Len(e.ranges) :
-                                 (Max2(e.ranges[i].lo, ob) <= Min2(e.ranges[i].hi, op.a - 1)) => BlockGone(e.ranges[i].p))
+                                 (Max2(e.ranges[i].lo, ob) <= Min2(e.ranges[i].hi, bto - 1)) => BlockGone(e.ranges[i].p))
                     THEN {<<"PruneExact", "blocks-below-retain">>} ELSE {})
-              \cup (IF done /\ op.op = "PruneStates"
-                       /\ LET nv == NeededVals(cfg, disk0, op.b)
-                              np == NeededParams(cfg, disk0, op.b)
-                          IN \E h \in Dom(cfg) : op.a <= h /\ h < op.b /\
+              \cup (IF done /\ isPS
+                       /\ LET nv == NeededVals(cfg, disk0, sto)
+                              np == NeededParams(cfg, disk0, sto)
+                          IN \E h \in Dom(cfg) : sfrom <= h /\ h < sto /\
                                 LET p == ObsAt(e, h) IN
                                 \/ (h \notin nv /\ p.vlhc # -1)
                                 \/ (h \notin np /\ p.plhc # -1)
